@@ -3,7 +3,8 @@
 # bin/gencert.py is a copy of /repo/test/tools/gencert.py (BSD-3-Clause, Ericsson AB).
 set -e
 D=${VERIF_BUILD:-/verif/build}/creds
-[ -f $D/.done ] && exit 0
+[ -f $D/.done ] && [ -f $D/.done_ski ] && exit 0
+if [ -f $D/.done ]; then /usr/bin/python3 /verif/bin/gencreds_ski.py $D && touch $D/.done_ski; exit 0; fi
 mkdir -p $D
 cat <<YAML | /usr/bin/python3 /verif/bin/gencert.py
 base-path: $D
@@ -25,3 +26,4 @@ files:
     path: default/tc.pem
 YAML
 touch $D/.done
+/usr/bin/python3 /verif/bin/gencreds_ski.py $D && touch $D/.done_ski
